@@ -1034,7 +1034,7 @@ def build_reuse(inp, only=None):
                 # legitimately serve every inversion that uses the same mappers
                 src = aa.Inversion(dataset=build_graph(cfg_for(d, iv["mappers"]))[0], linear_obj_list=build_graph(cfg_for(d, iv["mappers"]))[1],
                                    settings=aa.SettingsInversion(use_w_tilde=base["w_tilde"], no_regularization_add_to_curvature_diag_value=1.0))
-                arrs = {n: np.array(getattr(src, n)) for n in inp["preload"]}
+                arrs = {n: np.array(getattr(src, PRELOADABLE.get(n, n))) for n in inp["preload"]}
                 pre = aa.Preloads(**arrs); pre._for = list(iv["mappers"])
                 owned += [pre] + list(arrs.values())
             if pre._for == list(iv["mappers"]): kw["preloads"] = pre
@@ -1094,9 +1094,17 @@ def gen_reuse_scenario(rng):
     base = {"shape": [H, W], "holes": [], "w_tilde": rng.random() < 0.4, "positive": False, "sub": 1}
     mk = lambda: {"data": [rng.randint(0, 20) for _ in range(H * W)], "noise": [rng.choice([1, 2, 4]) for _ in range(H * W)]}
     mappers = [[3, 3, rng.choice([1.0, 2.0])], [2, 2, 1.0], [3, 2, 4.0], [2, 3, 4.0]]
-    sc = rng.choice(["two-datasets", "two-mapper-sets", "scaled"])
+    sc = rng.choice(["two-datasets", "two-mapper-sets", "scaled", "same-fit", "same-fit"])
     scaled = False
-    if sc == "two-datasets":
+    if sc == "same-fit":
+        # the same fit repeated (a non-linear search evaluating one model twice) with ONE Preloads object that carries the arrays
+        # of the first evaluation, among them the mapper data vector; positive-only solver from an all-passive warm start
+        c = posall({"shape": [H, W], "mappers": []}, rng)
+        base.update(positive=True, p_initial=True, force_edge=False)
+        datasets = [{"data": c["data"], "noise": c["noise"]}]
+        ms = rng.choice([[0], [0, 1], [2]])
+        invs = [{"ds": 0, "mappers": ms}, {"ds": 0, "mappers": list(ms)}] + ([{"ds": 0, "mappers": list(ms)}] if rng.random() < 0.3 else [])
+    elif sc == "two-datasets":
         datasets = [mk(), mk()]
         if rng.random() < 0.5: datasets[1]["psf"] = [[0.0, 1.0, 0.0], [2.0, 4.0, 1.0], [0.0, 1.0, 1.0]]
         ms = rng.choice([[0], [1], [0, 1], [2]])
@@ -1110,8 +1118,11 @@ def gen_reuse_scenario(rng):
         ms = rng.choice([[0], [0, 1], [2]])
         invs = [{"ds": 0, "mappers": ms}, {"ds": 1, "mappers": list(ms)}]; scaled = True
     pre = rng.choice([None, None, ["regularization_matrix"]]) if sc != "two-mapper-sets" else None
+    if sc == "same-fit":
+        pre = rng.choice([["data_vector_mapper"], ["data_vector_mapper", "regularization_matrix"], ["data_vector_mapper", "curvature_matrix"],
+                          ["operated_mapping_matrix", "data_vector_mapper"]])
     inp = {"op": "reuse", "base": base, "datasets": datasets, "mappers": mappers, "invs": invs, "preload": pre, "scaled": scaled}
-    uni = [[k, "inv", q] for k in (0, 1) for q in REUSE_KEY_Q] + [[k, "mapper0", "mapping_matrix"] for k in (0, 1)]
+    uni = [[k, "inv", q] for k in range(len(invs)) for q in REUSE_KEY_Q] + [[k, "mapper0", "mapping_matrix"] for k in range(len(invs))]
     inp["reads"] = with_sweeps(rng, [rng.choice(uni) for _ in range(rng.randint(0, 3))], uni)
     return inp
 def gen_reuse_random(rng):
@@ -1322,6 +1333,7 @@ def run_fit(inp):
     return res
 def gen_fit(rng):
     cfg = rand_cfg(rng)
+    if rng.random() < 0.3: cfg = posall(cfg, rng)
     cfg["preloads"] = []
     cfg["sky"] = rng.choice([0.0, 0.0, 1.5]); cfg["offset"] = rng.choice([[0.0, 0.0], [0.0, 0.0], [0.5, -0.25]])
     if rng.random() < 0.3:
@@ -1617,6 +1629,8 @@ def gen_gcase(rng, inst):
         ok = [n for n in range(len(nodes)) if not (inst == 0 and n == 7)]      # Mesh2DDelaunay has no areas_for_magnification
     elif inst in (2, 5):
         cfg = rand_cfg(rng); cfg.update(preloads=[], funcs=[], mappers=[[3, 3, rng.choice([1.0, 2.0])]], w_tilde=(inst == 5), positive=False)
+        if rng.random() < 0.5: cfg = posall(cfg, rng)      # the positive-only solver from an all-passive warm start: same graph
+        elif rng.random() < 0.4: cfg.update(positive=True, force_edge=False)
         ok = list(range(len(nodes)))
     elif inst == 3:
         cfg = rand_cfg(rng); H, W = cfg["shape"]; cfg["native"] = rng.random() < 0.5
@@ -1681,9 +1695,267 @@ def run_seed(inp):
     if bad: res["detail"] = "; ".join(bad[:3])
     return res
 
+# ----------------------------------------------------------------------------- util functions called with caller-owned arrays
+def util_args(inp):
+    """the caller's arrays of one util call, built from the integer spec (exact in double precision)"""
+    n = inp["n"]; dt = {"float64": np.float64, "int64": np.int64, "float32": np.float32}[inp["dtype"]]
+    M = np.array(inp["M"], dtype=np.int64).reshape(n, n)
+    FR = M.T @ M + inp["c"] * np.eye(n, dtype=np.int64)                  # symmetric positive definite, integer entries
+    sv = np.array(inp["s"], dtype=np.int64)
+    mk = lambda a: np.array(a, dtype=dt, order=inp["order"])
+    f = inp["fn"]
+    if f in ("positive_only", "positive_negative", "fnnls"):
+        a = {"data_vector": mk(FR @ sv), "curvature_reg_matrix": mk(FR)}
+        if f == "fnnls" and inp.get("p_initial"): a["P_initial"] = np.array(sv > 0)
+        return a
+    m = inp["m"]
+    B = np.array(inp["B"], dtype=np.int64).reshape(m, n)
+    if f == "mirrored": return {"curvature_matrix": mk(np.triu(FR))}
+    if f == "curvature": return {"mapping_matrix": mk(B), "noise_map": mk(inp["noise"])}
+    if f == "mapped_recon": return {"mapping_matrix": mk(B), "reconstruction": mk(sv)}
+    if f == "data_vector": return {"blurred_mapping_matrix": mk(B), "image": mk(inp["image"]), "noise_map": mk(inp["noise"])}
+    nb = np.array([[(i - 1) % n, (i + 1) % n] for i in range(n)], dtype=np.int64, order=inp["order"])      # a ring of pixels
+    if f == "reg_constant": return {"neighbors": nb, "neighbors_sizes": np.full(n, 2, dtype=np.int64)}
+    if f == "reg_weighted": return {"regularization_weights": mk(np.abs(sv) + 1), "neighbors": nb, "neighbors_sizes": np.full(n, 2, dtype=np.int64)}
+    if f == "reg_weights": return {"pixel_signals": mk((np.abs(sv) % 5) / 4.0) if dt != np.int64 else mk(np.abs(sv) % 2)}
+    raise ValueError(f)
+def util_call(inp, a, settings):
+    aa = import_aa()
+    from autoarray.inversion.inversion import inversion_util
+    from autoarray.inversion.inversion.imaging import inversion_imaging_util
+    from autoarray.inversion.regularization import regularization_util
+    from autoarray.util import fnnls
+    f = inp["fn"]
+    try:
+        if f == "positive_only":
+            kw = {} if settings is None else {"settings": settings}       # omitted: the signature's default SettingsInversion()
+            r = inversion_util.reconstruction_positive_only_from(data_vector=a["data_vector"], curvature_reg_matrix=a["curvature_reg_matrix"], **kw)
+        elif f == "positive_negative":
+            r = inversion_util.reconstruction_positive_negative_from(data_vector=a["data_vector"], curvature_reg_matrix=a["curvature_reg_matrix"],
+                                                                      mapper_param_range_list=[[0, inp["n"]]])
+        elif f == "fnnls":
+            kw = {"P_initial": a["P_initial"]} if "P_initial" in a else {}
+            r = fnnls.fnnls_cholesky(a["curvature_reg_matrix"], a["data_vector"], **kw)
+        elif f == "mirrored": r = inversion_util.curvature_matrix_mirrored_from(curvature_matrix=a["curvature_matrix"])
+        elif f == "curvature": r = inversion_util.curvature_matrix_via_mapping_matrix_from(mapping_matrix=a["mapping_matrix"], noise_map=a["noise_map"])
+        elif f == "mapped_recon":
+            r = inversion_util.mapped_reconstructed_data_via_mapping_matrix_from(mapping_matrix=a["mapping_matrix"], reconstruction=a["reconstruction"])
+        elif f == "data_vector":
+            r = inversion_imaging_util.data_vector_via_blurred_mapping_matrix_from(blurred_mapping_matrix=a["blurred_mapping_matrix"], image=a["image"],
+                                                                                   noise_map=a["noise_map"])
+        elif f == "reg_constant": r = regularization_util.constant_regularization_matrix_from(coefficient=2.0, **a)
+        elif f == "reg_weighted": r = regularization_util.weighted_regularization_matrix_from(**a)
+        elif f == "reg_weights": r = regularization_util.adaptive_regularization_weights_from(inner_coefficient=2.0, outer_coefficient=0.5, **a)
+        else: raise ValueError(f)
+        return np.array(r, dtype=float)
+    except Exception as e:   # noqa
+        if isinstance(e, ValueError) and str(e) == f: raise
+        return type(e).__name__
+def run_util(inp):
+    """a util function (the solvers first) called DIRECTLY with arrays the caller owns and uses again: the arrays must hold the same
+    bytes afterwards, a second call with the very same objects and a call with private copies taken beforehand must give the same
+    bits; integer-typed inputs must give the result of the same values typed float64"""
+    aa = import_aa()
+    a = util_args(inp)
+    priv = {k: np.array(v, order="K") for k, v in a.items()}
+    settings = None
+    if inp["fn"] == "positive_only" and inp.get("settings") != "omitted":
+        settings = aa.SettingsInversion(use_positive_only_solver=True, positive_only_uses_p_initial=bool(inp.get("p_initial")))
+    w = Watch([a, settings])
+    bad = []
+    r1 = util_call(inp, a, settings)
+    ch = w.bad()
+    r2 = util_call(inp, a, settings)
+    r3 = util_call(inp, priv, None if settings is None else aa.SettingsInversion(use_positive_only_solver=True,
+                                                                                 positive_only_uses_p_initial=bool(inp.get("p_initial"))))
+    enc = lambda r: r if isinstance(r, str) else bits(r)
+    if ch: bad.append("after the first call: " + "; ".join(ch))
+    if enc(r1) != enc(r2): bad.append("a second call with the same argument objects gives another result")
+    if enc(r1) != enc(r3): bad.append("the result differs from the one computed on private copies of the arguments")
+    bad += [x for x in w.bad() if x not in ch]
+    if inp["dtype"] == "int64" and not isinstance(r3, str):
+        rf = util_call(dict(inp, dtype="float64"), util_args(dict(inp, dtype="float64")), settings)
+        if isinstance(rf, str) or rf.shape != r3.shape or not np.allclose(r3, rf, rtol=1e-9, atol=1e-12):
+            bad.append("integer-typed arguments give another result than the same values typed float64")
+    allpos = inp["fn"] in ("positive_only", "fnnls") and bool(inp.get("p_initial")) and all(x > 0 for x in inp["s"])
+    tally("util calls", 1); tally("util solver calls whose warm start has every parameter passive", int(allpos))
+    tally("util calls raising (canonical exception)", int(isinstance(r1, str)))
+    res = {"coq": None, "out": {"result": enc(r1), "bad": bad[:4]}, "py_ok": not bad, "nontrivial": True,
+           "kind": "util:" + inp["fn"] + ":" + inp["dtype"] + ":" + inp["order"] + (":warm-all-passive" if allpos else "")}
+    if bad: res["detail"] = "; ".join(bad[:4])
+    return res
+UTIL_FNS = ["positive_only", "positive_only", "positive_only", "fnnls", "fnnls", "positive_negative", "mirrored", "curvature", "mapped_recon",
+            "data_vector", "reg_constant", "reg_weighted", "reg_weights"]
+def gen_util(rng, k):
+    f = UTIL_FNS[k % len(UTIL_FNS)]
+    n = rng.randint(1, 5); m = rng.randint(1, 6)
+    cls = rng.choice(["pos", "pos", "mixed", "zero"])            # the sign pattern of the unconstrained solution
+    sv = [rng.randint(1, 6) for _ in range(n)]
+    if cls == "mixed": sv = [x * rng.choice([1, 1, -1]) for x in sv]
+    if cls == "zero": sv = [x * rng.choice([1, 0]) for x in sv]
+    return {"op": "util", "fn": f, "n": n, "m": m, "M": [rng.randint(-2, 3) for _ in range(n * n)], "c": rng.randint(1, 3), "s": sv,
+            "B": [rng.randint(0, 3) for _ in range(m * n)], "noise": [rng.choice([1, 2, 4]) for _ in range(m)],
+            "image": [rng.randint(0, 9) for _ in range(m)], "order": rng.choice(["C", "C", "F"]),
+            "dtype": rng.choice(["float64", "float64", "float64", "int64", "float32"]),
+            "p_initial": rng.random() < 0.75, "settings": rng.choice(["own", "own", "omitted"])}
+
+# ----------------------------------------------------------------------------- PART E: argument objects shared between calls (KShare)
+OS_FIELDS = ("uniform", "non_uniform", "pixelization")
+def os_record(o):
+    """an OverSamplingDataset as a record of sub-sizes (0 = None)"""
+    out = []
+    for f in OS_FIELDS:
+        x = getattr(o, f)
+        out.append(0 if x is None else int(x.sub_size))
+    return out
+def mk_os(spec):
+    aa = import_aa()
+    return aa.OverSamplingDataset(**{f: (aa.OverSamplingUniform(sub_size=k) if k else None) for f, k in zip(OS_FIELDS, spec)})
+def share_defaults():
+    """the default instances of the four signatures, in the order of Model/C11s.v: 2 cls = constructor, 2 cls + 1 = apply_over_sampling"""
+    aa = import_aa()
+    pick = lambda f: [d for d in f.__defaults__ if type(d).__name__ == "OverSamplingDataset"][0]
+    return [pick(aa.Imaging.__init__), pick(aa.Imaging.apply_over_sampling), pick(aa.Interferometer.__init__), pick(aa.Interferometer.apply_over_sampling)]
+def share_base(inp, b, over_sampling, omitted):
+    """base dataset b (Imaging unmasked / Interferometer) holding the given OverSamplingDataset object, or built with the argument omitted"""
+    aa = import_aa()
+    d = inp["bases"][b]; H, W = inp["shape"]
+    kw = {} if omitted else {"over_sampling": over_sampling}
+    if d["cls"] == 0:
+        mask = aa.Mask2D(mask=np.zeros((H, W), bool), pixel_scales=1.0)
+        data = aa.Array2D(values=np.array(d["data"], dtype=float).reshape(H, W), mask=mask)
+        noise = aa.Array2D(values=np.full((H, W), 2.0), mask=mask)
+        psf = aa.Kernel2D.no_mask(values=np.array(PSF), pixel_scales=1.0)
+        return aa.Imaging(data=data, noise_map=noise, psf=psf, **kw), [mask, data, noise, psf]
+    m = np.ones((H, W), bool); m[1:H - 1, 1:W - 1] = False
+    mask = aa.Mask2D(mask=m, pixel_scales=1.0)
+    vis = aa.Visibilities(visibilities=np.array([1 + 1j, 2 + 0j, 3 - 1j]) * (1 + d["data"][0]))
+    nm = aa.VisibilitiesNoiseMap(visibilities=np.array([1 + 1j, 1 + 1j, 1 + 1j]))
+    uv = np.array([[1.0, 2.0], [3.0, -1.0], [0.0, 0.0]])
+    return aa.Interferometer(data=vis, noise_map=nm, uv_wavelengths=uv, real_space_mask=mask, transformer_class=aa.TransformerDFT, **kw), [mask, vis, nm, uv]
+def share_keep(ds, how, mask2):
+    if how == "mask": return ds.apply_mask(mask=mask2)
+    if how == "noise_scaling": return ds.apply_noise_scaling(mask=mask2, noise_value=64.0)
+    raise ValueError(how)
+def share_view(ds):
+    """everything a derived dataset reports that depends on its over-sampling, and its data"""
+    out = os_record(ds.over_sampling) + [NAN + 10]
+    try: out += view_grids(ds.grids)
+    except Exception as e: out += exc_code(e)       # noqa
+    return digest(out + enc_val(ds.data) + enc_val(ds.noise_map))
+def run_share(inp):
+    """a history of OverSamplingDataset objects handed to dataset constructors and to apply_over_sampling -- explicitly, the SAME
+    object to several calls, partially specified, or omitted (the signature's default instance) -- and of derivations that keep the
+    over-sampling (apply_mask, apply_noise_scaling), on several datasets.  Coq (KShare): the record every step returns and the names
+    (default instances, arguments, datasets) whose record changed, against the machine of Model/C11s.v and the value semantics.
+    Python: every dataset, when it is made (unless lazy) and again at the end, reports what a history-free twin reports (the same
+    chain of derivations replayed alone with freshly built arguments: grids with their sub-sizes, data, noise map)."""
+    aa = import_aa()
+    H, W = inp["shape"]
+    defaults = share_defaults()
+    args, dss, recipe, owned = [], [], [], []
+    m2 = np.array(inp["mask2"], dtype=bool); mask2 = aa.Mask2D(mask=m2, pixel_scales=1.0); owned += [m2, mask2]
+    w = Watch(owned)
+    argspec = []
+    def names():
+        return [(k, os_record(d)) for k, d in enumerate(defaults)] + [(4 + 2 * i, os_record(a)) for i, a in enumerate(args)] \
+            + [(5 + 2 * d, os_record(x.over_sampling)) for d, x in enumerate(dss)]
+    def twin(d):
+        r = recipe[d]
+        if r[0] == "base":
+            spec = argspec[r[2]] if r[2] is not None else [0, 0, 0]
+            return share_base(inp, r[1], mk_os(spec), False)[0]
+        if r[0] == "apply": return twin(r[1]).apply_over_sampling(over_sampling=mk_os(argspec[r[2]] if r[2] is not None else [0, 0, 0]))
+        return share_keep(twin(r[1]), r[2], aa.Mask2D(mask=m2.copy(), pixel_scales=1.0))
+    out, ops, bad = [], [], []
+    copt = lambda a: "None" if a is None else f"(Some {cnat(a)})"
+    for st in inp["steps"]:
+        before = names()
+        o = st["o"]; made = None
+        try:
+            if o == "arg":
+                args.append(mk_os(st["r"])); argspec.append(list(st["r"])); owned.append(args[-1])
+                ops.append(f"(HArg {carr(st['r'])})"); obs = ("ok", os_record(args[-1]))
+            elif o == "ds":
+                a = st["a"]; b = st["b"]; cls = inp["bases"][b]["cls"]
+                ds, own = share_base(inp, b, None if a is None else args[a], a is None); owned += own
+                dss.append(ds); recipe.append(("base", b, a)); made = len(dss) - 1
+                ops.append(f"(HDs {cnat(cls)} {copt(a)})"); obs = ("ok", os_record(ds.over_sampling))
+            elif o == "apply":
+                a = st["a"]; src = dss[st["d"]]
+                ds = src.apply_over_sampling() if a is None else src.apply_over_sampling(over_sampling=args[a])
+                dss.append(ds); recipe.append(("apply", st["d"], a)); made = len(dss) - 1
+                ops.append(f"(HApply {cnat(st['d'])} {copt(a)})"); obs = ("ok", os_record(ds.over_sampling))
+            elif o == "keep":
+                ds = share_keep(dss[st["d"]], st["how"], mask2)
+                dss.append(ds); recipe.append(("keep", st["d"], st["how"])); made = len(dss) - 1
+                ops.append(f"(HKeep {cnat(st['d'])})"); obs = ("ok", os_record(ds.over_sampling))
+            elif o == "peek_arg": ops.append(f"(HPeekArg {cnat(st['i'])})"); obs = ("ok", os_record(args[st["i"]]))
+            elif o == "peek_ds": ops.append(f"(HPeekDs {cnat(st['d'])})"); obs = ("ok", os_record(dss[st["d"]].over_sampling))
+            elif o == "peek_default": ops.append(f"(HPeekDefault {cnat(st['w'])})"); obs = ("ok", os_record(defaults[st["w"]]))
+            else: raise ValueError(o)
+        except ValueError: raise
+        after = dict(names())
+        ch = [(k, after[k]) for k, v in before if after[k] != v]
+        out.append((obs, ch))
+        if made is not None and not inp.get("lazy"):
+            if share_view(dss[made]) != share_view(twin(made)): bad.append(f"dataset {made} ({recipe[made][0]}) differs from its history-free twin")
+    for d in range(len(dss)):
+        if share_view(dss[d]) != share_view(twin(d)): bad.append(f"at the end dataset {d} ({recipe[d][0]}) differs from its history-free twin")
+    bad += w.bad()
+    couts = clist([f"({cobs(obs)}, {clist([f'({cnat(k)}, {carr(v)})' for k, v in ch])})" for obs, ch in out])
+    coq = f"(KShare {clist(ops)} {couts})"
+    shared = len([1 for s_ in inp["steps"] if s_["o"] == "apply" and s_["a"] is None]) >= 2 or \
+        any(sum(1 for s_ in inp["steps"] if s_["o"] in ("apply", "ds") and s_["a"] == i) >= 2 for i in range(len(args)))
+    tally("share histories", 1); tally("share histories in which one argument object / default instance serves two calls", int(shared))
+    res = {"coq": coq, "out": {"records": [o_[1] for o_, _ in out][-4:], "changed": [c for _, c in out if c], "bad": bad[:4]},
+           "py_ok": False if bad else None, "nontrivial": shared, "kind": "share:" + ("shared" if shared else "unshared") + (":lazy" if inp.get("lazy") else "")}
+    if bad: res["detail"] = "; ".join(bad[:4])
+    return res
+def gen_share(rng):
+    H, W = rng.randint(5, 6), rng.randint(5, 6)
+    mask2 = [[(y < 1 or y > H - 2 or x < 1 or x > W - 2) for x in range(W)] for y in range(H)]
+    rec = lambda p0: [0 if rng.random() < p0 else rng.choice([1, 2, 4]) for _ in range(3)]
+    steps = []; nargs = 0; dss = []      # dss: (cls, masked)
+    bases = []
+    def new_arg(r): nonlocal nargs; steps.append({"o": "arg", "r": r}); nargs += 1; return nargs - 1
+    def new_ds(cls, a):
+        bases.append({"cls": cls, "data": [rng.randint(0, 20) for _ in range(H * W)]})
+        steps.append({"o": "ds", "b": len(bases) - 1, "a": a}); dss.append((cls, cls == 1)); return len(dss) - 1
+    directed = rng.random() < 0.6
+    if directed:
+        # the state the independent campaign needed: two datasets with DIFFERENT own over-sampling, apply_over_sampling on both with
+        # ONE partially specified argument object or with the argument omitted
+        cls = rng.choice([0, 0, 0, 1])
+        own = [rec(0.2), rec(0.2)]
+        while own[0] == own[1]: own[1] = rec(0.2)
+        d0 = new_ds(cls, new_arg(own[0])); d1 = new_ds(cls, new_arg(own[1]))
+        a = None if rng.random() < 0.5 else new_arg(rec(0.6))
+        order = [d0, d1] if rng.random() < 0.7 else [d1, d0]
+        for d in order:
+            steps.append({"o": "apply", "d": d, "a": a}); dss.append(dss[d])
+            if rng.random() < 0.3: steps.append({"o": "peek_default", "w": 2 * cls + 1} if a is None else {"o": "peek_arg", "i": a})
+    else:
+        for _ in range(rng.randint(1, 2)): new_arg(rec(0.5))
+        for _ in range(rng.randint(2, 3)):
+            r = rng.random()
+            new_ds(rng.choice([0, 0, 0, 1]), None if r < 0.3 else (rng.randrange(nargs) if r < 0.5 else new_arg(rec(0.3))))
+    for _ in range(rng.randint(2, 6)):
+        r = rng.random(); d = rng.randrange(len(dss))
+        if r < 0.4:
+            a = rng.choice([None] + list(range(nargs)))
+            steps.append({"o": "apply", "d": d, "a": a}); dss.append(dss[d])
+        elif r < 0.6 and dss[d][0] == 0:
+            how = "mask" if dss[d][1] or rng.random() < 0.6 else "noise_scaling"
+            steps.append({"o": "keep", "d": d, "how": how}); dss.append((0, dss[d][1] or how == "mask"))
+        elif r < 0.75: steps.append({"o": "peek_arg", "i": rng.randrange(nargs)} if nargs else {"o": "peek_default", "w": rng.randrange(4)})
+        elif r < 0.9: steps.append({"o": "peek_ds", "d": d})
+        else: steps.append({"o": "peek_default", "w": rng.randrange(4)})
+    return {"op": "share", "shape": [H, W], "mask2": mask2, "bases": bases, "steps": steps, "lazy": rng.random() < 0.3}
+
 def run_case(inp):
     r = run_case0(inp)
-    if r.get("coq") and not r["coq"].startswith("(KGraph"): r["coq"] = "(KA " + r["coq"] + ")"
+    if r.get("coq") and not r["coq"].startswith(("(KGraph", "(KShare")): r["coq"] = "(KA " + r["coq"] + ")"
     return r
 def run_case0(inp):
     op = inp["op"]
@@ -1697,6 +1969,8 @@ def run_case0(inp):
     if op == "edit": return run_edit(inp)
     if op == "fit": return run_fit(inp)
     if op == "gcase": return run_gcase(inp)
+    if op == "util": return run_util(inp)
+    if op == "share": return run_share(inp)
     raise ValueError(op)
 
 # ----------------------------------------------------------------------------- generators
@@ -1954,7 +2228,18 @@ def rand_cfg(rng):
             "w_tilde": rng.random() < 0.5, "positive": rng.random() < 0.3, "sub": rng.choice([1, 1, 2]),
             "preloads": sorted(rng.sample(sorted(PRELOADABLE), rng.choice([0, 0, 1, 2]))),
             "funcs": rand_funcs(rng, H * W - 2 * H - 2 * W + 4 - len(holes)), "force_edge": rng.random() < 0.7,
-            "edge_image": rng.random() < 0.15, "w_tilde_numpy": rng.random() < 0.2, "source_loop": rng.random() < 0.2}
+            "edge_image": rng.random() < 0.15, "w_tilde_numpy": rng.random() < 0.2, "source_loop": rng.random() < 0.2,
+            "p_initial": rng.choice([True, True, False])}
+def posall(cfg, rng):
+    """DIRECTED: the state in which the positive-only solver's warm start (positive_only_uses_p_initial=True, the production
+    default, pushed explicitly) puts EVERY parameter in the passive set: smooth strictly positive data, one noise level, every mapper
+    regularized, no forced zeros -- the unconstrained solution is strictly positive (counted at run time on a twin: see the tally
+    'warm start has every parameter passive').  Random data reach it in < 1% of the cases."""
+    H, W = cfg["shape"]; base = 4 * rng.randint(6, 14)
+    cfg.update(data=[base + rng.randint(0, 2) for _ in range(H * W)], noise=[rng.choice([1, 2])] * (H * W), positive=True, p_initial=True,
+               force_edge=False, edge_image=False, funcs=[])
+    cfg["mappers"] = [[m[0], m[1], m[2] if m[2] is not None else 1.0] for m in cfg["mappers"]]
+    return cfg
 def rand_funcs(rng, npix):
     """0-2 linear objects that are not mappers, before and / or after the mappers, unregularized most of the time"""
     out = []
@@ -1992,6 +2277,7 @@ def gen_inputs(tier, rng):
                                "w_tilde": True, "positive": False, "sub": 1, "preloads": []}, "pre": "PDiag", "qs": ["QF", "QPreDiag", "QFR", "QF", "QPreDiag"]}
     for k in range(300 if big else 26):
         cfg = rand_cfg(rng)
+        if k % 3 == 1: cfg = posall(cfg, rng)       # with whatever preloads rand_cfg chose (data_vector_mapper included)
         who = ["inv"] * 6 + ["mapper0", "mapper1", "ds", "grids", "mask"]
         reads = []
         for _ in range(rng.randint(3, 14)):
@@ -2040,6 +2326,10 @@ def gen_inputs(tier, rng):
     for k in range(240 if big else 16): yield gen_fit(rng)
     # PART D: reads on the quantity graphs of Model/C11g.v (cache fills and changed entries are compared inside Coq)
     for k in range(300 if big else 36): yield gen_gcase(rng, k % 6)
+    # PART E: argument objects (OverSamplingDataset) shared between dataset constructors / apply_over_sampling calls / omitted
+    for k in range(400 if big else 40): yield gen_share(rng)
+    # util functions (solvers first) called directly with caller-owned arrays: C / Fortran order, float64 / int64 / float32
+    for k in range(520 if big else 52): yield gen_util(rng, k)
     for k in range(120 if big else 18):
         H, W = rng.randint(2, 4), rng.randint(2, 4)
         vias = ["simulator", "poisson", "gaussian", "interferometer"]
